@@ -1,4 +1,5 @@
 import Morlock.Basic
+import Morlock.Gen.Facts
 /-!
 # Model of `TimeControl.Limits` (`pkg/search/searchctl/timectrl.go`)
 
@@ -8,9 +9,10 @@ namespace Morlock.Model
 
 /-- `TimeControl.Limits`: `(soft, hard)` for the clock `remainder` and `t.Moves = moves` (every operation in `int64`:
 `moves + 1`, the two divisions, `3 * soft`). `remainder / moves / 2`: the first divisor is `Moves + 1` (wrapped: in `[2, 2^63)` or,
-for `Moves = 2^63 - 1`, `-2^63`), never `0` or `-1`, so neither division can panic. -/
+for `Moves = 2^63 - 1`, `-2^63`), never `0` or `-1`, so neither division can panic. The number of moves assumed when none is given is read from the source
+(`Gen.defaultHorizon`, regenerated on every run; `C15Limits.horizon_ok` re-checks that it is in `[2, 2^62)`). -/
 def limits (remainder moves : Int) : Int × Int :=
-  let m : Int := if moves > 0 then wrap64 (moves + 1) else 40
+  let m : Int := if moves > 0 then wrap64 (moves + 1) else Gen.defaultHorizon
   let soft := wrap64 (Int.tdiv (wrap64 (Int.tdiv remainder m)) 2)
   (soft, wrap64 (3 * soft))
 
